@@ -75,6 +75,22 @@ for _rt, _dd in _DIM.items():
                  options={"abstract": True, "summaries": [_RN + "_nearest_neighbor"]},
                  raises=[("Exception", "False", "only_if")])
 
+# remapping onto the grid the data already live on (the destination IS the source grid object): still a remap between element kinds
+for _rt, _dd in _DIM.items():
+    for _d in (("n_node",), ("time", "n_face")):
+        for _fnq, _extra_p, _extra_a in ((_RN + "_nearest_neighbor_uxda", {}, ""),
+                                         (_RI + "_inverse_distance_weighted_remap_uxda", {"power": "opaque", "k": "opaque"}, ", power, k")):
+            _kern = _fnq[:-len("_uxda")]
+            contract(_fnq, props=["C12"], variant=f"same_grid;{_rt};dims=" + ",".join(_d),
+                     params={"source_uxda": f"obj('UxDataArray', dims={_d!r})", "destination_grid": "alias(source_uxda.uxgrid)",
+                             "remap_to": repr(_rt), "coord_type": "opaque", **_extra_p},
+                     returns="opaque",
+                     ensures=[f"same(result.values, summary('{_kern}', source_uxda.uxgrid, source_uxda.uxgrid, source_uxda.values, "
+                              f"'{_rt}', coord_type{_extra_a}))",
+                              "same(result.uxgrid, source_uxda.uxgrid)", f"result.dims == {list(_d[:-1]) + [_dd]!r}"],
+                     options={"abstract": True, "summaries": [_kern]},
+                     raises=[("Exception", "False", "only_if")])
+
 for _rt, _dd in _DIM.items():
     for _d in (("n_node",), ("time", "n_face")):
         contract(_RI + "_inverse_distance_weighted_remap_uxda", props=["C12"], variant=f"{_rt};dims=" + ",".join(_d),
